@@ -502,6 +502,98 @@ def restartConf {γ : Type} (dflt : γ × Nat) (s : Conf γ) : Conf γ :=
 def reachConf {γ : Type} (dflt : γ × Nat) (ops : List (COp γ)) : Conf γ :=
   ops.foldl cstep { row := none, mem := dflt }
 
+/-! ### the manager views in more detail: root ORDER, settings FIELDS, volumes -/
+
+/-- one row of `contract_sector_roots` / `contract_v2_sector_roots` of a contract: its `root_index`,
+the `sector_id` it points to (ids grow in the order sectors were first stored) and that sector's root -/
+structure RRow where
+  idx : Nat
+  sector : Nat
+  root : Nat
+deriving DecidableEq, Repr
+
+def rootAt (i : Nat) : List RRow → Option Nat
+  | [] => none
+  | r :: rest => if r.idx = i then some r.root else rootAt i rest
+
+/-- `SectorRoots()` / `V2SectorRoots()`: `… ORDER BY contract_id, root_index ASC` — for rows with the indices
+`0 … n-1` that is: the root at index 0, at index 1, … whatever the physical order of the rows -/
+def loadByIndex (n : Nat) (rows : List RRow) : List (Option Nat) := (List.range n).map fun i => rootAt i rows
+
+/-- the rows hold the list `roots`: as many rows as roots and the row with index `i` carries `roots[i]`
+(what the store's replay of the sector actions maintains — C03) -/
+def Represents (roots : List Nat) (rows : List RRow) : Prop :=
+  ∀ i, i < roots.length → rootAt i rows = roots[i]?
+
+/-- the same query ordered by `sector_id` (insertion sort), to show that the ORDER BY column matters -/
+def insertBySector (r : RRow) : List RRow → List RRow
+  | [] => [r]
+  | x :: rest => if r.sector ≤ x.sector then r :: x :: rest else x :: insertBySector r rest
+
+def loadBySector (rows : List RRow) : List Nat := (rows.foldr insertBySector []).map (·.root)
+
+/-- `contracts.NewManager` with the row level spelled out: `rrows id` are the stored rows of contract `id` -/
+def rebuildRootsFrom (rrows : Nat → List RRow) (rows : List CRow) : List (Nat × List Nat) :=
+  rows.map fun c => (c.id, (loadByIndex c.roots.length (rrows c.id)).filterMap id)
+
+/-- A settings row as a vector of columns; `upd i`: column `i` is in the `ON CONFLICT DO UPDATE SET` list of
+the upsert (persist/sqlite/settings.go). The first call inserts every column; later calls change the listed ones. -/
+structure FConf where
+  row : Option (Nat → Nat)
+  mem : Nat → Nat
+
+def fstep (upd : Nat → Bool) (s : FConf) (v : Nat → Nat) : FConf :=
+  { row := some (match s.row with
+                 | none => v
+                 | some o => fun i => if upd i then v i else o i),
+    mem := v }
+
+def frestart (dflt : Nat → Nat) (s : FConf) : FConf :=
+  match s.row with
+  | some r => { s with mem := r }
+  | none => { s with mem := dflt }
+
+def freach (upd : Nat → Bool) (dflt : Nat → Nat) (vs : List (Nat → Nat)) : FConf :=
+  vs.foldl (fstep upd) { row := none, mem := dflt }
+
+/-- the column lists of the two upserts, as written in the code (id and settings_revision are handled apart) -/
+def pinnedInsertCols : List String :=
+  ["currency", "threshold", "storage_pinned", "storage_price", "ingress_pinned", "ingress_price",
+   "egress_pinned", "egress_price", "max_collateral_pinned", "max_collateral"]      -- settings.go:39-40
+def pinnedUpdateCols : List String :=
+  ["currency", "threshold", "storage_pinned", "storage_price", "ingress_pinned", "ingress_price",
+   "egress_pinned", "egress_price", "max_collateral_pinned", "max_collateral"]      -- settings.go:41-44
+def settingsInsertCols : List String :=
+  ["accepting_contracts", "net_address", "contract_price", "base_rpc_price", "sector_access_price",
+   "collateral_multiplier", "max_collateral", "storage_price", "egress_price", "ingress_price",
+   "max_account_balance", "max_account_age", "price_table_validity", "max_contract_duration", "window_size",
+   "ingress_limit", "egress_limit", "registry_limit", "ddns_provider", "ddns_update_v4", "ddns_update_v6",
+   "ddns_opts", "sector_cache_size"]                                                  -- settings.go:88-93
+def settingsUpdateCols : List String :=
+  ["accepting_contracts", "net_address", "contract_price", "base_rpc_price", "sector_access_price",
+   "collateral_multiplier", "max_collateral", "storage_price", "egress_price", "ingress_price",
+   "max_account_balance", "max_account_age", "price_table_validity", "max_contract_duration", "window_size",
+   "ingress_limit", "egress_limit", "registry_limit", "ddns_provider", "ddns_update_v4", "ddns_update_v6",
+   "ddns_opts", "sector_cache_size"]                                                  -- settings.go:95-107
+
+/-- `upd` of a column list pair: is the `i`-th inserted column also updated? (columns beyond the list: yes) -/
+def updOf (ins updc : List String) (i : Nat) : Bool :=
+  match ins[i]? with
+  | some c => updc.contains c
+  | none => true
+
+/-- storage.VolumeManager: persisted volume row, whether its file can be opened, the `available` flag -/
+structure Vol where
+  id : Nat
+  fileOk : Bool
+  available : Bool
+deriving DecidableEq, Repr
+
+/-- `loadVolumes` (host/storage/storage.go:107): open the file, `SetAvailable(id, opened)` -/
+def restartVols (vs : List Vol) : List Vol := vs.map fun v => { v with available := v.fileOk }
+
+def observeVols (vs : List Vol) : List (Nat × Bool) := vs.map fun v => (v.id, v.available)
+
 /-- what each constructor does (read from the code) -/
 structure Ctor where
   name   : String
